@@ -57,6 +57,10 @@ where
 
         let store = Vec::from(bytes);
         // add data to entries
+        // every entry gets its own decoded copy of its data, so entries that point at the same bytes of the data
+        // section would make the header keep (entries x section) bytes. Like rpm (hdrblobVerifyInfo), refuse
+        // overlapping entries: the data of all entries together may not be larger than the section
+        let mut budget = bytes.len();
         for entry in &mut entries {
             let mut remaining = usize::try_from(entry.offset)
                 .ok()
@@ -67,30 +71,38 @@ where
                         entry.offset, entry.tag
                     ))
                 })?;
+            let available = remaining.len();
 
-            match &mut entry.data {
-                IndexData::Null => {}
+            let used = match &mut entry.data {
+                IndexData::Null => 0,
                 IndexData::Char(chars) => {
                     parse_binary_entry(remaining, entry.num_items, chars, "Char")?;
+                    chars.len()
                 }
                 IndexData::Int8(ints) => {
                     parse_binary_entry(remaining, entry.num_items, ints, "Int8")?;
+                    ints.len()
                 }
                 IndexData::Int16(ints) => {
                     parse_entry_data_number(remaining, entry.num_items, ints, be_u16)?;
+                    2 * ints.len()
                 }
                 IndexData::Int32(ints) => {
                     parse_entry_data_number(remaining, entry.num_items, ints, be_u32)?;
+                    4 * ints.len()
                 }
                 IndexData::Int64(ints) => {
                     parse_entry_data_number(remaining, entry.num_items, ints, be_u64)?;
+                    8 * ints.len()
                 }
                 IndexData::StringTag(string) => {
                     let (_rest, raw_string) = complete::take_till(|item| item == 0)(remaining)?;
                     string.push_str(String::from_utf8_lossy(raw_string).as_ref());
+                    (raw_string.len() + 1).min(available)
                 }
                 IndexData::Bin(bin) => {
                     parse_binary_entry(remaining, entry.num_items, bin, "Bin")?;
+                    bin.len()
                 }
                 IndexData::StringArray(strings) => {
                     for _ in 0..entry.num_items {
@@ -102,6 +114,7 @@ where
                         let string = String::from_utf8_lossy(raw_string).to_string();
                         strings.push(string);
                     }
+                    available - remaining.len()
                 }
                 IndexData::I18NString(strings) => {
                     for _ in 0..entry.num_items {
@@ -113,8 +126,15 @@ where
                         let string = String::from_utf8_lossy(raw_string).to_string();
                         strings.push(string);
                     }
+                    available - remaining.len()
                 }
-            }
+            };
+            budget = budget.checked_sub(used).ok_or_else(|| {
+                Error::Nom(format!(
+                    "Data of tag {} overlaps the data of other index entries",
+                    entry.tag
+                ))
+            })?;
         }
 
         Ok(Header {
